@@ -35,7 +35,18 @@ const BASE: [&str; 6] = ["a", "b", "c", "d", "e", "f"];
 
 /// names of the `n` templates and the prefixes for naming variant `variant`
 fn naming(n: usize, variant: u64) -> (Vec<String>, Vec<String>) {
-    match variant % 3 {
+    match variant % 4 {
+        // prefixes that do NOT end in `/`: a prefix is glued to the name as a string
+        3 => (
+            (0..n)
+                .map(|i| match i % 3 {
+                    0 => format!("theme-{}", BASE[i]),
+                    1 => format!("themes/cool{}", BASE[i]),
+                    _ => format!("{}.html", BASE[i]),
+                })
+                .collect(),
+            vec!["theme-".to_string(), "themes/cool".to_string()],
+        ),
         0 => ((0..n).map(|i| BASE[i].to_string()).collect(), vec![]),
         1 => (
             (0..n).map(|i| if i % 2 == 1 { format!("th/{}", BASE[i]) } else { format!("{}.html", BASE[i]) }).collect(),
@@ -351,9 +362,11 @@ fn file_check(c: &Case, imp: &str) -> String {
     let r = catch(std::panic::AssertUnwindSafe(|| {
         let dir = std::env::temp_dir().join(format!("tera_verif_c11_{}", std::process::id()));
         let _ = std::fs::create_dir_all(&dir);
+        // (listed in REVERSE order: whatever extends or includes comes before what it refers to)
         let files: Vec<(std::path::PathBuf, Option<String>)> = c
             .tpls
             .iter()
+            .rev()
             .enumerate()
             .map(|(i, t)| {
                 let path = dir.join(format!("t{i}.tpl"));
@@ -448,6 +461,42 @@ fn late_prefix_check(c: &Case, imp: &str, renderable: bool) -> String {
     r.unwrap_or_else(|p| format!("diff panic {p}"))
 }
 
+/// `set_fallback_prefixes` called several times BEFORE the first template is added: the last call
+/// decides (a replaced or cleared prefix no longer resolves anything).  The set is registered on an
+/// instance configured with `first` then `last`, and must be answered as on an instance configured
+/// with `last` only.  "na" | "same" | "diff <description>"
+fn prefix_replace_check(c: &Case) -> String {
+    if c.prefixes.is_empty() {
+        return "na".into();
+    }
+    let r = catch(std::panic::AssertUnwindSafe(|| {
+        let mut plans: Vec<(Vec<String>, Vec<String>)> = vec![(c.prefixes.clone(), vec![])];
+        if c.prefixes.len() > 1 {
+            plans.push((c.prefixes.clone(), c.prefixes.iter().rev().cloned().collect()));
+            plans.push((c.prefixes.clone(), vec![c.prefixes[1].clone()]));
+        }
+        for (first, last) in plans {
+            let mut tera = tera::Tera::default();
+            let _ = tera.set_fallback_prefixes(first.clone());
+            let _ = tera.set_fallback_prefixes(last.clone());
+            let got = match add_all(&mut tera, &c.tpls) {
+                Ok(()) => format!("ok {}", real_derived(&tera).canon()),
+                Err(e) => canon_err(&e),
+            };
+            let (want, _) = register(&Case { prefixes: last.clone(), tpls: c.tpls.clone() });
+            if !same_answer(&got, &want) {
+                return format!(
+                    "diff set_fallback_prefixes({first:?}) then set_fallback_prefixes({last:?}) before any template: the set is answered `{}`, but with set_fallback_prefixes({last:?}) alone `{}` — a replaced prefix list must no longer resolve anything",
+                    got.chars().take(120).collect::<String>(),
+                    want.chars().take(120).collect::<String>()
+                );
+            }
+        }
+        "same".to_string()
+    }));
+    r.unwrap_or_else(|p| format!("diff panic {p}"))
+}
+
 /// text (or error class) every template renders, for before / after comparisons
 fn render_texts(tera: &tera::Tera, c: &Case) -> String {
     c.tpls
@@ -466,6 +515,7 @@ fn extra_checks(c: &Case, imp: &str, with_files: bool, renderable: bool) -> Stri
     let mut results = vec![dup_batch_check(c, imp), late_prefix_check(c, imp, renderable)];
     if with_files {
         results.push(file_check(c, imp));
+        results.push(prefix_replace_check(c));
     }
     if let Some(d) = results.iter().find(|r| r.starts_with("diff")) {
         return d.clone();
@@ -675,6 +725,59 @@ fn child_reg(path: &str, two_step: Option<usize>) {
     match two_step {
         None => println!("{}", register(&c).0),
         Some(x) => println!("{}", register_two_step(&c, x).unwrap_or_else(|| "na".into())),
+    }
+}
+
+/// the one-off entry points (`render_str`, `render_str_to`, `Tera::one_off`): (label, include target
+/// exists?, source)
+fn oneoff_sources() -> Vec<(String, bool, String)> {
+    let mut v = Vec::new();
+    for (target, exists) in [("nav", true), ("th_only", true), ("nosuch", false), ("./nav", false), ("NAV", false)] {
+        let inc = format!("{{% include \"{target}\" %}}");
+        for (place, src) in [
+            ("live", format!("a{inc}b")),
+            ("untaken-if", format!("a{{% if false %}}{inc}{{% endif %}}b")),
+            ("untaken-else", format!("a{{% if true %}}x{{% else %}}{inc}{{% endif %}}b")),
+            ("empty-loop", format!("a{{% for i in [] %}}{inc}{{% endfor %}}b")),
+            ("uncalled-component", format!("a{{% component zz() %}}{inc}{{% endcomponent zz %}}b")),
+            ("filter-section-in-untaken-if", format!("a{{% if false %}}{{% filter upper %}}{inc}{{% endfilter %}}{{% endif %}}b")),
+        ] {
+            v.push((format!("{place} include \"{target}\""), exists, src));
+        }
+    }
+    v
+}
+
+/// worker: every one-off source through every one-off entry point; one line per call:
+/// `label \t entry point \t ok | err <class> | panic`
+fn child_oneoff() {
+    let progress = std::sync::Arc::new(std::sync::atomic::AtomicU64::new(0));
+    start_watchdog(progress, 20);
+    // an instance that holds `nav` and, under a fallback prefix, `th/th_only`
+    let mut tera = engine(&["th/".to_string()]);
+    tera.add_raw_templates(vec![("nav", "N"), ("th/th_only", "T")]).expect("resident templates");
+    let class = |r: Result<Result<String, tera::Error>, String>| match r {
+        Ok(Ok(_)) => "ok".to_string(),
+        Ok(Err(e)) => canon_err(&e),
+        Err(_) => "panic".to_string(),
+    };
+    for (label, _, src) in oneoff_sources() {
+        let r1 = class(catch(std::panic::AssertUnwindSafe(|| tera.render_str(&src, &Context::new(), false))));
+        println!("{label}\trender_str on an instance holding the target\t{r1}");
+        let r2 = class(catch(std::panic::AssertUnwindSafe(|| {
+            let mut buf: Vec<u8> = Vec::new();
+            tera.render_str_to(&src, &Context::new(), true, &mut buf).map(|()| String::from_utf8_lossy(&buf).to_string())
+        })));
+        println!("{label}\trender_str_to on an instance holding the target\t{r2}");
+        let r3 = class(catch(std::panic::AssertUnwindSafe(|| tera::Tera::one_off(&src, &Context::new(), false))));
+        println!("{label}\tTera::one_off (no template registered)\t{r3}");
+        // the same source registered: add_raw_template must agree with render_str on the instance
+        let r4 = class(catch(std::panic::AssertUnwindSafe(|| {
+            let mut t2 = engine(&["th/".to_string()]);
+            t2.add_raw_templates(vec![("nav", "N"), ("th/th_only", "T")])?;
+            t2.add_raw_template("one", &src).map(|()| String::new())
+        })));
+        println!("{label}\tadd_raw_template\t{r4}");
     }
 }
 
@@ -1010,6 +1113,9 @@ fn random_case(rng: &mut Rng) -> Case {
         if rng.chance(1, 60) {
             tpls[i].parent = Some("missing_parent".into());
         }
+        if rng.chance(1, 40) {
+            tpls[i].parent = tpls[i].parent.take().map(|p| if rng.chance(1, 2) { format!("./{p}") } else { p.to_uppercase() });
+        }
         let mut block = BlockS { name: "k".into(), ..Default::default() };
         let mut comp = CompS { name: format!("c_{}", tplgen::mark(&names[i])), includes: vec![] };
         let n_inc = match shape {
@@ -1019,7 +1125,16 @@ fn random_case(rng: &mut Rng) -> Case {
         for _ in 0..n_inc {
             // mostly towards higher indices (acyclic), sometimes anything
             let j = if rng.chance(6, 7) && i + 1 < n { i + 1 + rng.below(n - i - 1) } else { rng.below(n) };
-            let r = if rng.chance(1, 80) { "missing_include".to_string() } else { refer(rng, j) };
+            let mut r = if rng.chance(1, 80) { "missing_include".to_string() } else { refer(rng, j) };
+            if rng.chance(1, 25) {
+                // a spelling that is ANOTHER name (exact match and the prefix rule only): dangling
+                // unless a template of exactly that name exists
+                r = match rng.below(3) {
+                    0 => format!("./{r}"),
+                    1 => format!("x/../{r}"),
+                    _ => r.to_uppercase(),
+                };
+            }
             match rng.below(3) {
                 0 => tpls[i].top_includes.push(r),
                 1 => block.includes.push(r),
@@ -1156,6 +1271,7 @@ fn main() {
             "reg" => child_reg(&args[i + 2], None),
             "reg2" => child_reg(&args[i + 2], Some(args[i + 3].parse().unwrap())),
             "dup" => child_reg(&args[i + 2], Some(usize::MAX)),
+            "oneoff" => child_oneoff(),
             _ => {}
         }
         return;
@@ -1516,6 +1632,91 @@ fn main() {
             } else if !good {
                 report.notes.push(format!("measurement: {kind} chain of depth {depth} (beyond the claimed 32): {status}"));
             }
+        }
+    }
+
+    // ---- 2'. the one-off entry points: a source whose include target does not exist must be
+    //      rejected wherever the include sits (also in code that does not run), exactly as
+    //      add_raw_template rejects it; one whose target exists (exactly / through the prefix) renders
+    {
+        let (status, out) = run_child(&["--child".into(), "oneoff".into()], Duration::from_secs(60));
+        let sources = oneoff_sources();
+        let mut seen = 0usize;
+        let mut by_label: std::collections::BTreeMap<String, Vec<(String, String)>> = std::collections::BTreeMap::new();
+        for line in out.lines() {
+            let f: Vec<&str> = line.split('\t').collect();
+            if f.len() == 3 {
+                by_label.entry(f[0].to_string()).or_default().push((f[1].to_string(), f[2].to_string()));
+            }
+        }
+        for (label, exists, src) in &sources {
+            for (entry, ans) in by_label.get(label).cloned().unwrap_or_default() {
+                seen += 1;
+                report.evaluations += 1;
+                report.oracle_checks += 1;
+                report.count(&format!("one-off.{}", if ans == "ok" { "ok" } else { "rejected" }));
+                let target_known = *exists && !entry.starts_with("Tera::one_off");
+                let good = if target_known { ans == "ok" } else { ans.starts_with("err") };
+                if !good {
+                    report.oracle_failures += 1;
+                    report.violation(
+                        "property",
+                        format!(
+                            "{entry}: source `{src}` ({label}) is answered `{ans}`: {}",
+                            if target_known { "its include target exists, it must render" } else { "its include target does not exist: it must be rejected like add_raw_template rejects it, also when the include sits in code that does not run" }
+                        ),
+                        serde_json::json!({"one_off": {"entry_point": entry, "source": src, "label": label, "resident": [["nav", "N"], ["th/th_only", "T"]], "prefixes": ["th/"]}, "implementation": ans, "rerun": "harness/target/release/c11 --child oneoff"}),
+                    );
+                }
+            }
+        }
+        if status != "exit0" || seen != sources.len() * 4 {
+            report.oracle_failures += 1;
+            report.violation("property", format!("the one-off entry points did not all answer (worker {status}, {seen} of {} answers)", sources.len() * 4), serde_json::json!({"one_off": "all", "worker": status}));
+        }
+    }
+
+    // ---- 3'. short extends chains whose block calls super() TWICE at every level (the block level
+    //      has to be restored after each super()): rendered in a child with a deadline, expected
+    //      text from the reference (level i = marker + twice the text of level i-1)
+    for depth in [3usize, 4, 5] {
+        let mut tpls = Vec::new();
+        let mut expect = "[k@n0:]".to_string();
+        for i in 0..depth {
+            let mut t = TplS::new(&format!("n{i}"));
+            t.parent = (i > 0).then(|| format!("n{}", i - 1));
+            t.blocks.push(BlockS { name: "k".into(), calls_super: i > 0, super_twice: i > 0, ..Default::default() });
+            tpls.push(t);
+            if i > 0 {
+                expect = format!("[k@n{i}:{expect}{expect}]");
+            }
+        }
+        let c = Case { prefixes: vec![], tpls };
+        let top = format!("n{}", depth - 1);
+        let expect = format!("ok {{n0:{expect}}}");
+        let imp = safe_register(&c);
+        report.evaluations += 1;
+        report.oracle_checks += 1;
+        report.count(&format!("deep.extends-super-twice.{depth}"));
+        let (mut status, mut out) = render_in_child(&c, &top, &format!("twice-{depth}"), Duration::from_secs(15));
+        if status != "exit0" {
+            // confirm on its own
+            (status, out) = render_in_child(&c, &top, &format!("twice-{depth}-again"), Duration::from_secs(15));
+        }
+        let out = out.trim().to_string();
+        if !(imp.starts_with("ok") && status == "exit0" && out == expect) {
+            report.oracle_failures += 1;
+            report.violation(
+                "property",
+                format!(
+                    "acyclic extends chain of {depth} templates whose block calls super() twice at every level: registration `{}`; render of `{top}` in a child process: {status} `{}` (confirmed by a second run); expected `{}`",
+                    err_class(&imp),
+                    out.chars().take(100).collect::<String>(),
+                    expect.chars().take(100).collect::<String>()
+                ),
+                replay_json(&c, &imp, serde_json::json!({"render": top, "expected": expect, "child": status})),
+            );
+            break;
         }
     }
 
